@@ -8,7 +8,7 @@ use crate::term::*;
 /// the syntactically significant alphabet: `c` is a command name (the recorder), `v` a variable
 pub const ALPHA: [&str; 15] = ["{", "}", "[", "]", "\"", "\\", "$", "(", ")", ";", "#", "*", " ", "\n", "a"];
 
-const PRELUDE: &str = "set a 1; set b(1) x; set b(a) y; set b(\u{e9}) z; set gr\u{f6}\u{df}e 42; set na\u{ef}ve yes; proc c args {rec c {*}$args}";
+const PRELUDE: &str = "set a 1; set e {}; set b(1) x; set b(a) y; set b(\u{e9}) z; set gr\u{f6}\u{df}e 42; set na\u{ef}ve yes; proc c args {rec c {*}$args}";
 
 pub fn mk(script: &str) -> Term {
     case(0, &[PRELUDE, script], &["a", "b"])
@@ -34,7 +34,7 @@ pub fn gen(tier: &str, seed: u64) -> Gen {
         "rec", "$a", "${a}", "$b(1)", "$b($a)", "$b(a)", "[rec x]", "[rec $a]", "{a b}", "{a {b} c}", "\"q $a\"",
         "\"[rec y] z\"", "a\\ b", "\\$a", "\\n", "\\x41", "{*}{1 2}", "{*}$a", "{*}[rec p q]", "{*}", "é", "$é", ";", "\n", "# c\n",
         "\\\n", "a$a", "$a$a", "x[rec i]y", "\"a\\\"b\"", "{\\{}", "{a\\\nb}", "$", "$(", "$a(", "${a", "{", "}", "\"", "[", "]", "\t",
-        "\u{a0}", "c", "c 1 2",
+        "\u{a0}", "c", "c 1 2", "{*}{}", "{*}$e", "{*}[rec]",
     ];
     // every word form of the pool, and a list of edge spellings, in three fixed contexts
     // (deterministic: these are in every run)
@@ -42,6 +42,7 @@ pub fn gen(tier: &str, seed: u64) -> Gen {
         "# a\\", "# a\\\\", "# a\\\\\\", "# C:\\dir\\\\", "#\\", "# x \\\n y", "\\ud800", "a\\uDFFFz", "\\U00110000", "\\UFFFFFFFF!",
         "\\xg", "\\u12", "\\x4", "\\U1F600", "\\400", "\\8", "$gr\u{f6}\u{df}e", "$na\u{ef}ve", "$x\u{663}", "${a(\u{e9})}", "$b(\u{e9})", "$\u{e9}t\u{e9}",
         "${b(1)}", "${b(a)}", "$b(1)(2)", "$a$", "$a(", "a$b(1)c", "{*}$b(1)", "{*}{a}b", "\"a\"b", "{a}{b}", "a;b", "a#b", "#a;b",
+        "{*}{} {*}$e", "[{*}{}]", "{*}$e;{*}{}\n{*}{ }", "{a\\\\\nb}", "{a\\\\\\\nb}", "{C:\\\\\n  rec in}", "\"a\\\\\nb\"",
     ];
     let mut nd = 0;
     for w in words.iter().chain(edges.iter()) {
@@ -90,6 +91,33 @@ pub fn gen(tier: &str, seed: u64) -> Gen {
         cases.push(tl(vec![ti(0), tstrs(&[super::c02cst::PRELUDE, text.as_str()]), tstrs(&super::c02cst::PROBES), tl(items), ti(fault as i64)]));
     }
     fams.push((format!("scripts rendered from random concrete syntax trees (every word form, substitutions nested to depth 2, separators, comments, empty commands, expansion; {} with one of 9 injected syntax faults)", nfault), ncst, false));
+    // the same script text evaluated from a value that list and dictionary commands have looked at
+    // before (whatever such a value has cached, substitution and command splitting follow its text)
+    let nview = if thorough { 20_000 } else { 1500 };
+    let directed = [
+        "rec $a [rec x]", "rec hello; rec $a\nrec [rec q] \"s $a\"", "rec {a b} $b(1)", "rec a;rec b", "rec \\$a \\[x\\]", "rec {*}{p q} r",
+        "rec x $e y", "rec \"q [rec i] r\"", "rec a {b c} d e", "rec k v k w", "# c d", "rec a\n# b c\nrec d",
+    ];
+    for i in 0..nview {
+        let s = if i < directed.len() { directed[i].to_string() } else {
+            let k = 1 + rng.below(6);
+            let mut s = String::new();
+            for j in 0..k {
+                if j > 0 { s.push(' '); }
+                s.push_str(words[rng.below(words.len())]);
+            }
+            s
+        };
+        let q = molt::types::Value::from(vec![molt::types::Value::from(s.as_str())]);
+        let views = ["catch {llength $s}", "catch {dict size $s}", "catch {lindex $s 0}", "catch {foreach x $s {}}", "catch {incr s 0}", "string length $s"];
+        let mut pre = format!("{}; set s {}", PRELUDE, q.as_str());
+        for _ in 0..(1 + rng.below(3)) {
+            pre.push_str("; ");
+            pre.push_str(views[rng.below(views.len())]);
+        }
+        cases.push(case(0, &[pre.as_str(), "if 1 $s", "rec again; if 1 $s"], &["a", "b"]));
+    }
+    fams.push(("script values evaluated after list / dictionary / integer views of the same value (1-3 views, then the script twice)".to_string(), nview, false));
     (cases, fams)
 }
 
